@@ -12,11 +12,19 @@ package lib
 
 import (
 	"bufio"
+	"bytes"
+	"encoding/json"
 	"fmt"
+	"go/ast"
+	"go/parser"
+	"go/printer"
+	"go/token"
 	"io"
 	"log/slog"
 	"os"
 	"os/exec"
+	"path/filepath"
+	"sort"
 	"strings"
 	"sync"
 	"time"
@@ -181,4 +189,200 @@ func (c *Child) Kill() {
 	}
 	c.cmd.Process.Kill()
 	c.reap()
+}
+
+// ---------------------------------------------------------------- delay overlay that keeps line numbers
+//
+// GenDelayOverlayLines instruments service/connection.go like GenDelayOverlay (same kinds of sites: every
+// channel send, close(...), select, c.conn.Write / c.conn.Close / c.joinFunc / c.leaveFunc call in a
+// statement list, and the entry of every function literal) but by TEXT insertion of `verifDelay(N); ` in
+// front of the statement, on the same line, so that stack traces of the instrumented build (race reports,
+// panics) show the line numbers of the real file.
+
+func GenDelayOverlayLines(serviceDir, out string) (string, []DelaySite, error) {
+	src := filepath.Join(serviceDir, "connection.go")
+	text, err := os.ReadFile(src)
+	if err != nil {
+		return "", nil, err
+	}
+	fset := token.NewFileSet()
+	f, err := parser.ParseFile(fset, src, text, parser.ParseComments)
+	if err != nil {
+		return "", nil, err
+	}
+	type ins struct {
+		off  int
+		code string
+	}
+	var sites []DelaySite
+	var inserts []ins
+	add := func(pos token.Pos, what, fn string, after bool) {
+		id := len(sites)
+		p := fset.Position(pos)
+		sites = append(sites, DelaySite{ID: id, Line: p.Line, What: what, Func: fn})
+		off := p.Offset
+		code := fmt.Sprintf("verifDelay(%d); ", id)
+		if after { // right after the '{' of a function literal
+			off++
+			code = " " + code
+		}
+		inserts = append(inserts, ins{off, code})
+	}
+	callName := func(e ast.Expr) string {
+		c, ok := e.(*ast.CallExpr)
+		if !ok {
+			return ""
+		}
+		var b bytes.Buffer
+		printer.Fprint(&b, fset, c.Fun)
+		switch b.String() {
+		case "close", "c.conn.Close", "c.conn.Write", "c.leaveFunc", "c.joinFunc":
+			return b.String()
+		}
+		return ""
+	}
+	for _, d := range f.Decls {
+		fd, ok := d.(*ast.FuncDecl)
+		if !ok || fd.Body == nil {
+			continue
+		}
+		fn := fd.Name.Name
+		var list func(l []ast.Stmt)
+		var node func(n ast.Node)
+		node = func(n ast.Node) {
+			ast.Inspect(n, func(m ast.Node) bool {
+				switch x := m.(type) {
+				case *ast.FuncLit:
+					add(x.Body.Lbrace, "func-entry", fn, true)
+					list(x.Body.List)
+					return false
+				case *ast.BlockStmt:
+					list(x.List)
+					return false
+				case *ast.CaseClause:
+					list(x.Body)
+					return false
+				case *ast.CommClause:
+					list(x.Body)
+					return false
+				}
+				return true
+			})
+		}
+		list = func(l []ast.Stmt) {
+			for _, s := range l {
+				switch x := s.(type) {
+				case *ast.SendStmt:
+					add(x.Pos(), "send", fn, false)
+				case *ast.SelectStmt:
+					add(x.Pos(), "select", fn, false)
+				case *ast.ExprStmt:
+					if n := callName(x.X); n != "" {
+						add(x.Pos(), n, fn, false)
+					}
+				case *ast.AssignStmt:
+					for _, r := range x.Rhs {
+						if n := callName(r); n != "" {
+							add(x.Pos(), n, fn, false)
+							break
+						}
+					}
+				case *ast.IfStmt:
+					if as, ok := x.Init.(*ast.AssignStmt); ok {
+						for _, r := range as.Rhs {
+							if n := callName(r); n != "" {
+								add(x.Pos(), n, fn, false)
+								break
+							}
+						}
+					}
+				}
+				// descend (blocks, clauses, function literals); nested statement lists are handled by list
+				switch x := s.(type) {
+				case *ast.BlockStmt:
+					list(x.List)
+				case *ast.IfStmt:
+					if x.Init != nil {
+						node(x.Init)
+					}
+					node(x.Cond)
+					list(x.Body.List)
+					if x.Else != nil {
+						list([]ast.Stmt{x.Else})
+					}
+				case *ast.ForStmt:
+					list(x.Body.List)
+				case *ast.RangeStmt:
+					list(x.Body.List)
+				case *ast.SwitchStmt:
+					node(x.Body)
+				case *ast.TypeSwitchStmt:
+					node(x.Body)
+				case *ast.SelectStmt:
+					node(x.Body)
+				case *ast.LabeledStmt:
+					list([]ast.Stmt{x.Stmt})
+				default:
+					node(s)
+				}
+			}
+		}
+		list(fd.Body.List)
+	}
+	// apply the insertions from the end so that offsets stay valid
+	sort.SliceStable(inserts, func(i, j int) bool { return inserts[i].off > inserts[j].off })
+	outText := append([]byte{}, text...)
+	for _, in := range inserts {
+		outText = append(outText[:in.off], append([]byte(in.code), outText[in.off:]...)...)
+	}
+	if err := os.MkdirAll(out, 0o755); err != nil {
+		return "", nil, err
+	}
+	re := filepath.Join(out, "connection.go")
+	dl := filepath.Join(out, "verif_delay.go")
+	if err := os.WriteFile(re, outText, 0o644); err != nil {
+		return "", nil, err
+	}
+	if err := os.WriteFile(dl, []byte(delaySrc), 0o644); err != nil {
+		return "", nil, err
+	}
+	ov := map[string]map[string]string{"Replace": {src: re, filepath.Join(serviceDir, "verif_delay.go"): dl}}
+	b, _ := json.MarshalIndent(ov, "", " ")
+	oj := filepath.Join(out, "overlay.json")
+	if err := os.WriteFile(oj, b, 0o644); err != nil {
+		return "", nil, err
+	}
+	return oj, sites, nil
+}
+
+// BuildChildLines is BuildChild with the line-preserving overlay.
+func BuildChildLines(cmd, out, name string, race bool) (string, []DelaySite, error) {
+	oj, sites, err := GenDelayOverlayLines(ServiceDir(), filepath.Join(out, "overlay-"+name))
+	if err != nil {
+		return "", nil, fmt.Errorf("overlay: %w", err)
+	}
+	bin := filepath.Join(out, name)
+	args := []string{"build", "-tags", "verif", "-overlay", oj, "-o", bin}
+	if race {
+		args = append(args, "-race")
+	}
+	args = append(args, "./cmd/"+cmd)
+	c := exec.Command("go", args...)
+	c.Dir = HarnessSrcDir()
+	env := []string{}
+	for _, e := range os.Environ() {
+		if strings.HasPrefix(e, "CGO_ENABLED=") {
+			continue
+		}
+		env = append(env, e)
+	}
+	cgo := "0"
+	if race {
+		cgo = "1"
+	}
+	c.Env = append(env, "CGO_ENABLED="+cgo, "GOFLAGS=-mod=mod", "GOPROXY=off", "GOSUMDB=off", "GOTOOLCHAIN=local")
+	if outb, err := c.CombinedOutput(); err != nil {
+		return "", sites, fmt.Errorf("go build: %v: %s", err, Trunc(string(outb), 2000))
+	}
+	return bin, sites, nil
 }
